@@ -17,12 +17,14 @@ META = {
     'level_text': 'Proved for every well-formed type tree of any depth: C28_cass_parse_codec (Cassandra\'s descriptor of the type parses to a '
                   'class with the type\'s codec structure and the specified CQL name, vectors written with the marshal class name), '
                   'C28_cass_parse_partial (same CQL name, vector-free trees), C28_cass_parse_refuted (the full clause fails on vectors: open '
-                  'finding C28-1), C28_cql_roundtrip_print (printing the parsed hierarchy of a CQL name gives the canonical name), '
-                  'C28_strip_frozen (exactly the frozen markers are removed). Model tied to cassandra/cqltypes.py by differential execution.',
-    'level_note': 'Partial: the direction CQL string -> python list (re.Scanner + ast.literal_eval in cqltype_to_python) is modelled and '
-                  'compared with the driver but not covered by a theorem. Trusted: Coq kernel, the transcription of Cassandra\'s '
-                  'AbstractType.toString / CQL3Type names (the frozen marker of tuples/UDTs follows the driver), the harness; re.Scanner, '
-                  'ast.literal_eval, repr(list) and the class registry are modelled by hand; every case starts from a fresh registry.',
+                  'finding C28-1), C28_cql_roundtrip (cqltype_to_python then python_to_cqltype on every printed CQL type string, any number of '
+                  'double-quoted UDT names, is the identity up to the blank after commas), C28_strip_frozen_string / C28_strip_frozen '
+                  '(exactly the frozen markers are removed). Model tied to cassandra/cqltypes.py by differential execution, incl. histories '
+                  'of successive parses sharing the registry and the UDT cache.',
+    'level_note': 'Trusted: Coq kernel, the transcription of Cassandra\'s AbstractType.toString / CQL3Type names (the frozen marker of '
+                  'tuples/UDTs follows the driver; UDT names compared unquoted on the descriptor side), the harness; re.Scanner, '
+                  'ast.literal_eval, repr(list) and the class registry are modelled by hand. The model parses each descriptor from the '
+                  'registry as it is after import; histories without reset are compared step by step and checked by the oracle.',
     'design_ref': 'DESIGN.md section 4, C28',
 }
 
@@ -463,7 +465,7 @@ def run(ctx):
         ctx.case(key, nontrivial=d >= 1, sample={'tree': t, 'descriptor': desc, 'parsed': summary['result'], 'cql_name': summary['cql']} if d >= 2 else None)
         for (k, what, exp, act) in bad:
             ctx.violation(k, what, case={'tree': t}, expected=exp, actual=act,
-                          theorem='C28_cass_parse_partial' if k.startswith('cass_parse') else 'C28_cql_roundtrip_print' if k == 'cql_roundtrip' else 'C28_strip_frozen')
+                          theorem='C28_cass_parse_partial' if k.startswith('cass_parse') else 'C28_cql_roundtrip' if k == 'cql_roundtrip' else 'C28_strip_frozen')
         cases.append('chk_tree %s %s %s %s %s' % (T.gty(t), T.gs(desc), T.gs(T.spec_cql(t)), T.gs(T.spec_cql(t, fz=False)), g))
         meta.append(('tree', t, summary))
     # histories: successive parses sharing the registry and the UDT cache; every parse must satisfy the statement on its own
